@@ -110,6 +110,47 @@ def run(R):
             R.saw(dc)
             rows = [r for r in mirlib.str_eq_chain(dc) if isinstance(r['value'], str)]
             seen = {}
+            if not rows:
+                # the table as data: DECODERS.iter().find(|(url, _)| *url == any.type_url).map(|(_, decode)| decode(any)) with entries
+                # (K::TYPE_URL, decode_as::<K>); what is decoded is then put away by kind (a match on the ErrorDetail variant)
+                tl = None
+                for bb_, t_ in dc.calls(name='map') + dc.calls(name='and_then'):
+                    if 'Option' in (t_.get('fn') or ''):
+                        tl = tl or table_lookup(ty, dc.origin({'cp': {'l': t_['dest']['l']}}))
+                if tl is not None and tl['kind'] == 'find' and tl['value'] is not None:
+                    R.check(mentions_field(resolve_env(ty, dc, tl['probe']), 'type_url') or term_contains(tl['probe'], lambda y: y and y[0] == 'field' and y[1] in (('env',), ('deref', ('env',)))), 'C20.R1', '%s:table:matches-type_url' % label, site(dc), 'the table is searched for the entry\'s type_url')
+                    for e_ in tl['entries']:
+                        url_ = const_value(ty, tl['key'](e_))
+                        k = urls.get(url_)
+                        fv_ = strip_refs(tl['value'](e_))
+                        if fv_ and fv_[0] == 'agg' and fv_[1].get('kind') == 'tuple':
+                            # the projection calls the entry's function (`decode(any)`): the function is the entry's fn-typed element
+                            fns_ = [strip_refs(x_) for x_ in fv_[2] if find_terms(x_, lambda y: isinstance(y, tuple) and y and y[0] == 'fnitem')]
+                            fv_ = fns_[0] if len(fns_) == 1 else fv_
+                        while fv_ and fv_[0] == 'cast' and len(fv_) > 2:
+                            fv_ = strip_refs(fv_[2])
+                        ga_ = [g_.rsplit('::', 1)[-1] for g_ in ((fv_[2].get('ga') if fv_ and fv_[0] == 'fnitem' and isinstance(fv_[2], dict) else None) or [])]
+                        fnb_ = [x for x in ty.bodies if fv_ and fv_[0] == 'fnitem' and x.kind == 'fn' and x.path == re.sub(r'::<[^:]*>$', '', fv_[1])]
+                        generic_ok = bool(fnb_) and [self_kind(t2_) for bb2_, t2_ in fnb_[0].calls(name='from_any_ref')] != [] and all(re.match(r'^[A-Z]\w?$', self_kind(t2_) or '') for bb2_, t2_ in fnb_[0].calls(name='from_any_ref'))
+                        sk = ga_ if (generic_ok and len(ga_) == 1) else ['?']
+                        seen[k] = sk
+                        R.check(k is not None and sk == [k], 'C20.R1', '%s:%s' % (label, k or url_), site(dc), 'URL %r is decoded as %r (table entry)' % (url_, sk))
+                    # where each decoded kind goes
+                    for sw_ in [bb_ for bb_ in sorted(dc.live_blocks()) if dc.term(bb_)['k'] == 'switch' and (lambda o: o[0] == 'discr' and (o[3] or '').endswith('ErrorDetail'))(dc.origin(dc.term(bb_)['on']))][:1]:
+                        o_ = dc.origin(dc.term(sw_)['on'])
+                        names_ = dict(o_[2]) if len(o_) > 2 and o_[2] else {}
+                        edges_ = dc.switch_edges(sw_)
+                        for tgt_, vals_ in edges_.items():
+                            if len(vals_) != 1 or vals_[0] not in names_:
+                                continue
+                            k = names_[vals_[0]]
+                            reg_ = dc.reachable(tgt_, removed={sw_}) - set().union(*[dc.reachable(t2_, removed={sw_}) for t2_ in edges_ if t2_ != tgt_])
+                            if label == 'set-decoder' and k in field_of:
+                                wr = [st for x in reg_ for st in dc.blocks[x]['stmts'] if 'p' in st and mirlib.place_fields(st['p'])[-1:] == [field_of[k]]]
+                                R.check(len(wr) == 1, 'C20.R1', 'set-decoder:%s:field' % k, site(dc, sw_), 'decoded %s stored in details.%s: %d assignment(s)' % (k, field_of[k], len(wr)))
+                    if label == 'list-decoder':
+                        ps = [t_ for bb_, t_ in dc.calls(name='push')]
+                        R.check(len(ps) == 1 and term_contains(dc.origin(ps[0]['args'][1]), lambda x: is_call(x, name='find')), 'C20.R1', 'list-decoder:table:pushed', site(dc), 'what the table entry decoded is pushed to the list')
             for r in rows:
                 k = urls.get(r['value'])
                 tregion = dc.reachable(r['true'], removed={r['switch']}) - dc.reachable(r['false'], removed={r['switch']})
@@ -127,6 +168,7 @@ def run(R):
             R.eq(sorted(x for x in seen if x), sorted(kinds), 'C20.R1', '%s:kinds' % label, site(dc), 'kinds recognised by the %s' % label)
             # iterates self.details in order
             it = [t for bb, t in dc.calls(name='iter') if mentions_field(dc.origin(t['args'][0]), 'details')]
+            it = [t for t in it if not const_table(ty, dc.origin(t['args'][0]))]
             R.check(len(it) == 1 and not dc.calls(name='filter') and not dc.calls(name='rev') and not dc.calls(name='skip'), 'C20.R1', '%s:iterates-all-in-order' % label, site(dc), 'iterates self.details.iter() without filtering/reordering')
         # (e) getters
         for k in kinds:
@@ -288,26 +330,28 @@ def run(R):
         tonic = R.crate('tonic')
         fs = tonic.body('status::find_status_in_source_chain')
         R.saw(fs)
-        ags = [x for x in mirlib.aggregates(fs, 'status::Status') if x[3].get('kind') == 'adt']
-        ctor = [(bb, t) for bb, t in fs.calls(pat='status::Status::') if t.get('name') in ('new', 'with_metadata', 'with_details', 'with_details_and_metadata')]
+        ffs = family(tonic, fs)   # the rungs of the chain walk may be functions of their own (named, or listed in a table)
+        ags = [(m_,) + x for m_ in ffs for x in mirlib.aggregates(m_, 'status::Status') if x[3].get('kind') == 'adt']
+        ctor = [(m_, bb, t) for m_, bb, t in fam_calls(ffs, pat='status::Status::') if t.get('name') in ('new', 'with_metadata', 'with_details', 'with_details_and_metadata')]
         nfa = 0
         # the downcast to Status itself (other downcasts in the chain walk — TimeoutExpired, h2/hyper errors — build their own statuses)
         is_dc = lambda x: is_call(x, name='downcast_ref') and any(re.search(r'(^|::)Status$', g_) for g_ in (x[4].get('ga') or []))
-        for ag in ags:
-            if term_contains(fs.origin(ag[4][ag[3]['fields'].index('code')]), is_dc):
+        for agm in ags:
+            fs_, ag = agm[0], agm[1:]
+            if term_contains(fs_.origin(ag[4][ag[3]['fields'].index('code')]), is_dc):
                 for fname in ('code', 'message', 'details', 'metadata'):
-                    v = fs.origin(ag[4][ag[3]['fields'].index(fname)])
+                    v = fs_.origin(ag[4][ag[3]['fields'].index(fname)])
                     nfa += 1
-                    R.check(fname in [x[2] for x in find_terms(v, lambda x: x and x[0] == 'field')], 'C20.R6', 'recovered:%s' % fname, site(fs, ag[0], ag[1]), 'field %s of the recovered status comes from the found status: %s' % (fname, show(v)[:80]))
-        for bb, t in ctor:
-            if not any(term_contains(fs.origin(a_), is_dc) for a_ in t['args']):
+                    R.check(fname in [x[2] for x in find_terms(v, lambda x: x and x[0] == 'field')], 'C20.R6', 'recovered:%s' % fname, site(fs_, ag[0], ag[1]), 'field %s of the recovered status comes from the found status: %s' % (fname, show(v)[:80]))
+        for fs_, bb, t in ctor:
+            if not any(term_contains(fs_.origin(a_), is_dc) for a_ in t['args']):
                 continue
             got = set()
             for a_ in t['args']:
-                got.update(x[2] for x in find_terms(fs.origin(a_), lambda x: x and x[0] == 'field'))
+                got.update(x[2] for x in find_terms(fs_.origin(a_), lambda x: x and x[0] == 'field'))
             for fname in ('code', 'message', 'details', 'metadata'):
                 nfa += 1
-                R.check(fname in got, 'C20.R6', 'recovered:%s' % fname, site(fs, bb), 'Status::%s(..) is given the found status\'s %s: %r (arguments use %r)' % (t['name'], fname, fname in got, sorted(got)))
+                R.check(fname in got, 'C20.R6', 'recovered:%s' % fname, site(fs_, bb), 'Status::%s(..) is given the found status\'s %s: %r (arguments use %r)' % (t['name'], fname, fname in got, sorted(got)))
         R.floor('C20.R6', 'fields of the recovered status', nfa, 4)
 
     # ---------------------------------------------------------------- R4 inner status = outer status
